@@ -266,6 +266,9 @@ class Harness:
                 except asyncio.CancelledError:
                     hooks.emit("p.cancelled", p=pid)
                     was_cancelled.append(1)
+                    if spec.get("on_cancel"):
+                        # the payload answers its cancellation with an outcome of its own
+                        return finish(spec["on_cancel"])
                     raise
                 finally:
                     if late_adopt and was_cancelled:
@@ -293,6 +296,8 @@ class Harness:
                 except trio.Cancelled:
                     hooks.emit("p.cancelled", p=pid)
                     was_cancelled.append(1)
+                    if spec.get("on_cancel"):
+                        return finish(spec["on_cancel"])
                     raise
                 finally:
                     if late_adopt and was_cancelled:
